@@ -2,7 +2,7 @@
 # usage: confirm_seed.sh <worktree-dir> <out-file>
 # Confirms a seeded mutation: demo fails with the change, passes without, baseline tests still pass.
 WT=$1; OUT=$2
-cd "$WT" || exit 2
+mkdir -p /tmp/wt; cd "$WT" || exit 2
 export MPLBACKEND=Agg
 {
 echo "== worktree $WT"
@@ -16,6 +16,6 @@ timeout 1800 /venv/bin/python MUTATION/demo.py > /tmp/wt/$(basename $WT).demo_wi
 echo "exit=$WO"; tail -3 /tmp/wt/$(basename $WT).demo_without.txt
 git apply MUTATION/patch.diff || echo "RE-APPLY FAILED"
 echo "== baseline tests WITH change"
-NPROC=${NPROC:-3} nice -n 10 /tmp/wt/run_tests.sh "$WT" | tail -3
+NPROC=${NPROC:-3} nice -n 10 /verif/tools/run_tests.sh "$WT" | tail -14
 echo "== summary with=$W without=$WO"
 } > "$OUT" 2>&1
